@@ -9,7 +9,7 @@
     [ev_valid] excludes only the empty key in Put/Get/Delete (the property is about non-empty keys;
     query arguments may be empty). *)
 From Coq Require Import List NArith ZArith Lia.
-From Algo.C06 Require Import Spec SpecFacts Model ModelPat ProofsBin ProofsBinQ ProofsBinMain PatSweep PatInv PatBits PatTree PatPut.
+From Algo.C06 Require Import Spec SpecFacts Model ModelPat ProofsBin ProofsBinQ ProofsBinMain PatSweep PatInv PatBits PatTree PatMatch PatPut.
 Import ListNotations.
 
 Local Notation a := 97%N.
@@ -126,7 +126,7 @@ Proof. vm_compute. reflexivity. Qed.
     Not proved: that Put/Delete/DeleteMin/DeleteMax lead from a checked state to a checked state with
     the specification's contents; the driver evaluates [p_inv_check] on the model after every mutator
     of every replayed case and compares All() with the specification (correspondence).  Match is
-    covered by the bounded theorem and the correspondence only. *)
+    covered by C06_patricia_match_checked below. *)
 Theorem C06_patricia_queries_checked_partial :
   forall (V : Type) (t : pstate V) (e : ev V), p_inv_check t = true -> checked_query e ->
     p_step t e = (t, snd (s_step (p_contents t) e)).
@@ -138,10 +138,10 @@ Proof. intros. now apply p_step_checked. Qed.
     the contents; [PInv] implies [p_inv_check].  A key is representable ([kvalid]) when it is non-empty,
     its bytes are below 256 and it does not end in 0x00 — exactly the domain outside the recorded
     trailing-NUL finding.  Consequently, for EVERY history of Put (representable keys) and of the
-    queries Get, Size, Min, Max, Floor, Ceiling, Select, Rank, Range, RangeSize, All (any arguments),
-    the Patricia model returns what the specification returns, never panics and never runs out of fuel.
+    queries Get, Size, Min, Max, Floor, Ceiling, Select, Rank, Range, RangeSize, All and Match (any
+    arguments, any pattern), the Patricia model returns what the specification returns, never panics and never runs out of fuel.
     Still resting on the correspondence and the bounded sweep: Delete / DeleteMin / DeleteMax (the
-    four-pointer remove) and Match. *)
+    four-pointer remove). *)
 Theorem C06_patricia_put_partial :
   forall (V : Type) (t : pstate V) k (v : V), PInv t -> kvalid k ->
     exists t', p_put t k v = ROk t' /\ PInv t' /\ p_inv_check t' = true /\
@@ -150,6 +150,12 @@ Proof.
   intros V t k v I KV. destruct (p_put_preserves t k v I KV) as [t' [P [I' C]]].
   exists t'. repeat split; auto. now apply PInv_check.
 Qed.
+
+(** Match in every checked state: the pattern-directed descent misses no matching key *)
+Theorem C06_patricia_match_checked :
+  forall (V : Type) (t : pstate V) pat, p_inv_check t = true ->
+    p_match t pat = ROk (s_match pat (p_contents t)).
+Proof. intros. now apply p_match_correct. Qed.
 
 Theorem C06_refines_patricia_noDelete :
   forall (V : Type) (es : list (ev V)), Forall nd_event es -> p_run p_new es = s_run [] es.
@@ -167,7 +173,7 @@ Theorem C06_bit_order_is_lexicographic : forall x y b, bytes_ok x -> bytes_ok y 
 Proof. intros. now apply (lex_of_bits x y b). Qed.
 
 Example C06_example_patricia_noDelete :
-  Forall (@nd_event Z) [EPut [a;b] 1%Z; EPut [a] 2%Z; EPut [233%N] 3%Z; EPut [a;b] 4%Z; EGet [a;b]; ERank [b]; EAll].
+  Forall (@nd_event Z) [EPut [a;b] 1%Z; EPut [a] 2%Z; EPut [233%N] 3%Z; EPut [a;b] 4%Z; EGet [a;b]; ERank [b]; EMatch [star; b]; EAll].
 Proof. repeat constructor; simpl; try discriminate; try lia. Qed.
 
 (** Proved part 2 (finite, kernel-checked by vm_compute, deletes included): every history of at most 4
@@ -219,6 +225,7 @@ Print Assumptions C06_spec_floor.
 Print Assumptions C06_spec_ceiling.
 Print Assumptions C06_patricia_queries_checked_partial.
 Print Assumptions C06_patricia_put_partial.
+Print Assumptions C06_patricia_match_checked.
 Print Assumptions C06_refines_patricia_noDelete.
 Print Assumptions C06_diffpos_spec.
 Print Assumptions C06_bit_order_is_lexicographic.
